@@ -18,7 +18,8 @@ RULE = (
     "containers with >=4 non-continuous elements} x {integer, binary with user bounds contradicting [0,1]} x {linear "
     "model, nonlinear model} x every applicable method {auto, linprog, highs, highs-ds, highs-ipm | auto, SLSQP, "
     "trust-constr, L-BFGS-B, TNC, BFGS, CG, Newton-CG, Nelder-Mead, Powell, COBYLA} x {strict, non-strict}: the full "
-    "product.  transitions = solves on the real code with the back-end seam counting calls; evaluations: strict "
+    "product; plus histories of 2 (3 thorough) solves on ONE problem object (warm caches) over method pairs and every "
+    "strict / non-strict combination.  transitions = solves on the real code with the back-end seam counting calls; evaluations: strict "
     "raises IntegerVariableError whose variable_names are exactly the non-continuous variables with 0 back-end "
     "calls; non-strict emits >=1 UserWarning naming exactly those variables and returns the same status / objective "
     "/ values as the same model declared continuous; every element reachable through every view of a binary "
@@ -142,9 +143,79 @@ def all_cases(tier):
 
 NSH = 32
 
+SEQ_ROUTES = [r for r in ROUTES if r[0] in ("scalar", "vector", "matrix", "diag_matrix", "reversed")]
+SEQ_METHODS = {
+    "linear": [("auto", "auto"), ("auto", "highs-ds"), ("highs", "auto"), ("linprog", "SLSQP"), ("SLSQP", "auto")],
+    "nonlinear": [("auto", "auto"), ("SLSQP", "trust-constr"), ("trust-constr", "SLSQP"), ("L-BFGS-B", "SLSQP")],
+}
+SEQ_STRICT = [(False, False), (False, True), (True, False), (True, True)]
+
+
+def sequence_cases(tier):
+    """Histories of solves on ONE problem object: (method, strict) steps (caches are warm after the first)."""
+    idx = 0
+    for (rl, route, container) in SEQ_ROUTES:
+        for (domain, attrs) in DOMAINS[:2]:
+            for model in ("linear", "nonlinear"):
+                for ms in SEQ_METHODS[model]:
+                    for st in SEQ_STRICT:
+                        steps = tuple(zip(ms, st))
+                        if tier == "thorough":
+                            steps = steps + ((ms[0], True),)
+                        yield idx, (rl, domain, tuple(sorted(attrs.items())), model, steps), route, container, domain, attrs
+                        idx += 1
+
+
+def check_sequence(label, route, container, domain, attrs, rep=None, want=None):
+    from optyx.core.errors import IntegerVariableError
+
+    fails = Fails(want)
+    rl, _, _, model, steps = label
+    P, vs = make_problem("mixed", model, route, container, domain, attrs)
+    D = sorted({v.name for v in P.variables if v.name != "zc"}, key=natural_key)
+    if rep:
+        rep.states += 1
+        rep.nt(label)
+    for k, (method, strict) in enumerate(steps):
+        kw = {} if method == "auto" else {"method": method}
+        if rep:
+            rep.transitions += 1
+            rep.evaluations += 2
+        if strict:
+            try:
+                with Seam() as s_:
+                    P.solve(strict=True, **kw)
+                fails.add("strict-did-not-raise:on-repeated-solve" if k else "strict-did-not-raise", step=k, method=method, D=D)
+            except IntegerVariableError as ex:
+                names = sorted(getattr(ex, "variable_names", None) or [], key=natural_key)
+                if names != D:
+                    fails.add("strict-error-names", step=k, got=names, expected=D)
+                if len(s_.calls) != 0:
+                    fails.add("back-end-called-before-strict-error", step=k, calls=len(s_.calls))
+            except Exception as ex:
+                fails.add("strict-raised-other:" + type(ex).__name__, step=k, method=method, msg=str(ex)[:200])
+        else:
+            try:
+                with warnings.catch_warnings(record=True) as rec:
+                    warnings.simplefilter("always")
+                    P.solve(**kw)
+            except Exception as ex:
+                fails.add("exception:solve:" + type(ex).__name__, step=k, method=method, msg=str(ex)[:200])
+                continue
+            texts = [str(w.message) for w in rec if issubclass(w.category, UserWarning) and "integer/binary" in str(w.message)]
+            if not texts:
+                fails.add("no-relaxation-warning:on-repeated-solve" if k else "no-relaxation-warning", step=k, method=method, D=D)
+            else:
+                for t in texts:
+                    inside = t.split("[", 1)[1].rsplit("] have", 1)[0] if "[" in t and "] have" in t else t
+                    if [n for n in D if n not in inside]:
+                        fails.add("warning-names", step=k, method=method, text=t[:200], D=D)
+                        break
+    return fails
+
 
 def shards(tier, seed):
-    return [(i, NSH) for i in range(NSH)] + [("views", 0)]
+    return [(i, NSH) for i in range(NSH)] + [("views", 0)] + [("seq", i, 8) for i in range(8)]
 
 
 def check_case(label, route, container, domain, attrs, rep=None, want=None):
@@ -259,6 +330,20 @@ def explore(item, tier, seed):
         for k, d in check_binary_views(rep):
             rep.violation(k, {"label": ("views", d.get("route"))}, **d)
         return rep
+    if item[0] == "seq":
+        _, i, n = item
+        for idx, label, route, container, domain, attrs in sequence_cases(tier):
+            if idx % n != i:
+                continue
+            fs = check_sequence(label, route, container, domain, attrs, rep)
+            seen = set()
+            for k, d in fs:
+                if k not in seen:
+                    seen.add(k)
+                    rep.violation(k, {"label": ("seq",) + label}, **d)
+            if rep.states % 53 == 1:
+                rep.sample({"solve-history on one problem object": label})
+        return rep
     i, n = item
     for idx, label, route, container, domain, attrs in all_cases(tier):
         if idx % n != i:
@@ -278,6 +363,8 @@ def culprit(v):
     lab = v["case"]["label"]
     if lab[0] == "views":
         return {"kind": v["kind"], "route": lab[1]}
+    if lab[0] == "seq":
+        return {"kind": v["kind"], "route": lab[1], "domain": lab[2], "model": lab[4], "steps": lab[5]}
     return {"kind": v["kind"], "route": lab[0], "domain": lab[1], "model": lab[4], "method": lab[5]}
 
 
@@ -285,6 +372,13 @@ def replay(art):
     lab = detuple(art["violation"]["case"]["label"])
     if lab[0] == "views":
         return [{"kind": k, "detail": d} for k, d in check_binary_views(Report())]
+    if lab[0] == "seq":
+        for idx, label, route, container, domain, attrs in sequence_cases("thorough"):
+            if detuple(list(label)) == lab[1:] or label == lab[1:]:
+                return [{"kind": k, "detail": d} for k, d in check_sequence(label, route, container, domain, attrs)]
+        for idx, label, route, container, domain, attrs in sequence_cases("quick"):
+            if detuple(list(label)) == lab[1:] or label == lab[1:]:
+                return [{"kind": k, "detail": d} for k, d in check_sequence(label, route, container, domain, attrs)]
     for idx, label, route, container, domain, attrs in all_cases("quick"):
         if detuple(list(label)) == lab or label == lab:
             fs = check_case(label, route, container, domain, attrs, None, want=art["culprit"]["kind"])
